@@ -114,12 +114,12 @@ Section Recv.
   (* success for a non-native denom: it is an Own voucher to a hex receiver, and the receiver's balances change
      in exactly one place: + amount of the pair's ERC-20 *)
   Lemma recv_success_erc20 p s s' :
-    recv isender p s = (s', true) -> ip_denom p <> DFx -> 0 <= ip_recv p ->
-    exists t, ip_denom p = DOwn t /\ ip_hex p = true /\ ip_addr_ok p = true /\ 0 < ip_amt p /\
+    recv isender p s = (s', true) -> ip_denom p <> DFx -> 0 <= ip_recv p -> 0 <= ip_dst p ->
+    exists t, (ip_denom p = DOwn t \/ ip_denom p = DBase t) /\ ip_hex p = true /\ ip_addr_ok p = true /\ 0 < ip_amt p /\
       ibal s' (ip_recv p, AErc, t) = ibal s (ip_recv p, AErc, t) + ip_amt p /\
       (forall k a, (k, a) <> (AErc, t) -> ibal s' (ip_recv p, k, a) = ibal s (ip_recv p, k, a)).
   Proof.
-    rewrite recv_unfold. intros H Hfx Hpos.
+    rewrite recv_unfold. intros H Hfx Hpos Hdst.
     destruct (ip_addr_ok p) eqn:Eaddr; cbv beta iota delta [negb] in H; [|inversion H].
     destruct (transfer_recv p s) as [c1|c1] eqn:Et; [|inversion H].
     destruct (hook_recv isender p c1) as [c2|c2] eqn:Eh; inversion H; subst s'. clear H.
@@ -129,12 +129,12 @@ Section Recv.
     { destruct (ip_memo p) as [| | |f]; try (inversion Hmemo; subst; reflexivity); try discriminate.
       destruct (has_acct h1 (isender (ip_src p) (ip_sender p))); cbv beta iota delta [negb] in Hmemo; [|discriminate].
       destruct f; inversion Hmemo; subst; reflexivity. }
-    destruct (ip_denom p) as [|t|t|] eqn:Ed; [congruence| | |].
+    destruct (ip_denom p) as [|t|t| |t] eqn:Ed; [congruence| | | |].
     - (* Own t *)
       cbn [voucher_asset] in *. destruct (ip_hex p) eqn:Ehex; cbn [negb] in Hconv; [|discriminate].
       apply bind_ok in Hconv. destruct Hconv as (v1 & Hv & Hc).
       apply bind_ok in Hc. destruct Hc as (v2 & Hcc & Hl). inversion Hl; subst h1. clear Hl.
-      exists t. repeat split; auto.
+      exists t. split; [left; reflexivity|]. repeat split; auto.
       + rewrite Hlog. cbn [ibal with_log].
         unfold convert_coin in Hcc. destruct (negb _); [discriminate|]. apply bind_ok in Hcc. destruct Hcc as (w1 & Hp & Hm).
         inversion Hm; subst v2. clear Hm.
@@ -157,6 +157,19 @@ Section Recv.
       apply bind_ok in Hconv. destruct Hconv as (v1 & _ & Hc). discriminate.
     - cbn [voucher_asset] in Hconv. destruct (negb (ip_hex p)); [discriminate|].
       apply bind_ok in Hconv. destruct Hconv as (v1 & _ & Hc). discriminate.
+    - (* Base t coming home: unescrowed, then converted through pair t *)
+      destruct (ip_hex p) eqn:Ehex; cbn [negb] in Hconv; [|discriminate].
+      apply bind_ok in Hconv. destruct Hconv as (v2 & Hcc & Hl). inversion Hl; subst h1. clear Hl.
+      unfold convert_coin in Hcc. destruct (negb _); [discriminate|]. apply bind_ok in Hcc. destruct Hcc as (w1 & Hp & Hm).
+      inversion Hm; subst v2. clear Hm.
+      unfold pay in *.
+      repeat match goal with H : (if ?c then _ else _) = Ok _ |- _ => destruct c; [discriminate|]; inversion H; subst; clear H end.
+      exists t. repeat split; auto.
+      + rewrite Hlog. cbn [ibal with_log with_bal mint]. peel. unfold ACoin, AErc.
+        repeat match goal with |- context [?a =? ?b] => destruct (Z.eqb_spec a b) end; cbn [andb]; lia.
+      + intros k a Hne. rewrite Hlog. cbn [ibal with_log with_bal mint]. peel. unfold ACoin, AErc in *.
+        repeat match goal with |- context [?a =? ?b] => destruct (Z.eqb_spec a b) end;
+          cbn [andb]; try lia; exfalso; apply Hne; congruence.
   Qed.
 
   (* native FX: success credits exactly the amount as the native coin, hex or bech32 receiver alike *)
@@ -183,6 +196,29 @@ Section Recv.
         cbn [andb]; try lia; exfalso; apply Hne; congruence.
   Qed.
 
+  (* the receive rule as a table over (denom class, receiver class): what a success acknowledgement means in each cell *)
+  Definition credited_erc20 (p : inpacket) (s s' : ist) (t : Z) : Prop :=
+    ibal s' (ip_recv p, AErc, t) = ibal s (ip_recv p, AErc, t) + ip_amt p /\
+    (forall k a, (k, a) <> (AErc, t) -> ibal s' (ip_recv p, k, a) = ibal s (ip_recv p, k, a)).
+  Lemma recv_rule_table p s s' :
+    recv isender p s = (s', true) -> 0 <= ip_recv p -> 0 <= ip_dst p ->
+    match recv_rule_of (ip_denom p) (ip_hex p) with
+    | RKeepNative => ibal s' (ip_recv p, AFx, 0) = ibal s (ip_recv p, AFx, 0) + ip_amt p /\
+                     (forall k a, (k, a) <> (AFx, 0) -> ibal s' (ip_recv p, k, a) = ibal s (ip_recv p, k, a))
+    | RPairOfVoucher t | RPairOfBase t => credited_erc20 p s s' t
+    | RRefuse | RNoPair => False
+    end.
+  Proof.
+    intros H Hr Hd. destruct (ip_denom p) as [|t|t| |t] eqn:Ed.
+    - cbn. destruct (recv_success_fx p s s' H Ed Hr Hd) as (_ & A & B). split; assumption.
+    - destruct (recv_success_erc20 p s s' H) as (t' & [E|E] & Hh & _ & _ & A & B); try assumption; try (rewrite Ed; discriminate);
+        rewrite Ed in E; inversion E; subst. cbn. rewrite Hh. split; assumption.
+    - destruct (recv_success_erc20 p s s' H) as (t' & [E|E] & _); try assumption; try (rewrite Ed; discriminate); rewrite Ed in E; discriminate.
+    - destruct (recv_success_erc20 p s s' H) as (t' & [E|E] & _); try assumption; try (rewrite Ed; discriminate); rewrite Ed in E; discriminate.
+    - destruct (recv_success_erc20 p s s' H) as (t' & [E|E] & Hh & _ & _ & A & B); try assumption; try (rewrite Ed; discriminate);
+        rewrite Ed in E; inversion E; subst. cbn. rewrite Hh. split; assumption.
+  Qed.
+
   (* a non-native token to a bech32 receiver is never accepted *)
   Lemma recv_bech32_refused p s s' ok :
     recv isender p s = (s', ok) -> ip_denom p <> DFx -> ip_hex p = false -> ok = false.
@@ -203,7 +239,7 @@ Section Recv.
     unfold hook_recv.
     set (conv := match ip_denom p with DFx => Ok s | _ => _ end).
     assert (Hconv : forall e, In e (ilog (written conv)) -> In e (ilog s) \/ exists r t n, e = EvCredit r t n).
-    { subst conv. intros e. destruct (ip_denom p) as [|t|t|]; cbn [written]; auto;
+    { subst conv. intros e. destruct (ip_denom p) as [|t|t| |t]; cbn [written]; auto;
         cbn [voucher_asset]; destruct (negb (ip_hex p)); cbn [written]; auto.
       - destruct (voucher_to_self _ _ _ _ s) as [s1|s1] eqn:Ev; cbn [bind written].
         + pose proof (voucher_to_self_proj _ _ _ _ _ _ Ev) as (_&_&L1&_).
@@ -224,7 +260,12 @@ Section Recv.
         + pose proof (voucher_to_self_proj _ _ _ _ _ _ Ev) as (_&_&L1&_). rewrite L1. auto.
         + unfold voucher_to_self, pay in Ev.
           destruct (_ <? _); cbn [bind] in Ev; [inversion Ev; subst; auto|].
-          match type of Ev with (if ?c then _ else _) = _ => destruct c end; inversion Ev; subst; auto. }
+          match type of Ev with (if ?c then _ else _) = _ => destruct c end; inversion Ev; subst; auto.
+      - destruct (convert_coin _ _ _ s) as [s2|s2] eqn:Ec; cbn [bind written].
+        + pose proof (convert_coin_proj _ _ _ _ _ Ec) as (_&_&L2&_). cbn [ilog with_log]. rewrite L2.
+          intros Hin. apply in_app_or in Hin. destruct Hin as [|[<-|[]]]; eauto.
+        + unfold convert_coin in Ec. destruct (negb _); [inversion Ec; subst; auto|].
+          unfold pay in Ec. cbn [bind] in Ec. destruct (_ <? _); cbn [bind] in Ec; inversion Ec; subst; auto. }
     destruct conv as [s1|s1]; cbn [bind written] in *.
     - destruct (ip_memo p) as [| | |f]; cbn [written]; intros Hin;
         try (destruct (Hconv _ Hin) as [|(r&t&n&E)]; [auto|discriminate]).
@@ -282,7 +323,7 @@ Section Runs.
   Proof.
     unfold hook_recv. intros H. apply bind_ok in H. destruct H as (s1 & Hconv & Hmemo).
     assert (C : rel s1 = rel s /\ nextseq s1 = nextseq s /\ exists evs, ilog s1 = ilog s ++ evs /\ forall e, In e evs -> benign e).
-    { destruct (ip_denom p) as [|t|t|].
+    { destruct (ip_denom p) as [|t|t| |t].
       - inversion Hconv; subst. repeat split. exists []. rewrite app_nil_r. split; [reflexivity|intros e []].
       - destruct (negb (ip_hex p)); [discriminate|]. cbn [voucher_asset] in Hconv.
         apply bind_ok in Hconv. destruct Hconv as (v1 & Hv & Hc). apply bind_ok in Hc. destruct Hc as (v2 & Hcc & Hl).
@@ -295,7 +336,13 @@ Section Runs.
       - destruct (negb (ip_hex p)); [discriminate|]. cbn [voucher_asset] in Hconv.
         apply bind_ok in Hconv. destruct Hconv as (v1 & _ & Hc). discriminate.
       - destruct (negb (ip_hex p)); [discriminate|]. cbn [voucher_asset] in Hconv.
-        apply bind_ok in Hconv. destruct Hconv as (v1 & _ & Hc). discriminate. }
+        apply bind_ok in Hconv. destruct Hconv as (v1 & _ & Hc). discriminate.
+      - destruct (negb (ip_hex p)); [discriminate|].
+        apply bind_ok in Hconv. destruct Hconv as (v2 & Hcc & Hl). inversion Hl; subst s1. clear Hl.
+        pose proof (convert_coin_proj _ _ _ _ _ Hcc) as (R2&N2&L2&_).
+        cbn [rel nextseq ilog with_log]. repeat split; try congruence.
+        exists [EvCredit (ip_recv p) t (ip_amt p)]. split; [congruence|].
+        intros e [<-|[]]. left. eauto. }
     destruct C as (R & N & evs & L & B).
     destruct (ip_memo p) as [| | |f].
     - inversion Hmemo; subst. split; [auto|split; [auto|eauto]].
@@ -356,7 +403,7 @@ Section Runs.
   Lemma send_from_evm_eff c a d n s s' : send_from_evm c a d n s = Ok s' -> eff s s'.
   Proof.
     unfold send_from_evm. destruct (_ <=? _); [discriminate|].
-    destruct d as [|t|t|]; try discriminate.
+    destruct d as [|t|t| |t]; try discriminate.
     - intros H. chain. finish_send s.
       destruct (new_packet_proj s _ c a DFx n SP) as (R&N&L). eapply EffSendPlain; eauto.
     - destruct (negb _); [discriminate|]. intros H. chain. finish_send s.
@@ -366,13 +413,15 @@ Section Runs.
   Lemma send_plain_eff c a d n s s' : send_plain c a d n s = Ok s' -> eff s s'.
   Proof.
     unfold send_plain. destruct (_ <=? _); [discriminate|].
-    destruct d as [|t|t|]; try discriminate.
+    destruct d as [|t|t| |t]; try discriminate.
     - intros H. chain. finish_send s.
       destruct (new_packet_proj s _ c a DFx n SP) as (R&N&L). eapply EffSendPlain; eauto.
     - intros H. chain. finish_send s.
       destruct (new_packet_proj s _ c a (DOwn t) n SP) as (R&N&L). eapply EffSendPlain; eauto.
     - destruct (negb _); [discriminate|]. intros H. chain. finish_send s.
       destruct (new_packet_proj s _ c a (DAlias t) n SP) as (R&N&L). eapply EffSendPlain; eauto.
+    - intros H. chain. finish_send s.
+      destruct (new_packet_proj s _ c a (DBase t) n SP) as (R&N&L). eapply EffSendPlain; eauto.
   Qed.
 
   (* the refund either leaves the relation alone (nothing recorded for this packet) or consumes the record and re-converts *)
@@ -382,7 +431,7 @@ Section Runs.
     (exists t, In (p_chan pk, p_seq pk) (rel s) /\ rel s' = del_rel (rel s) (p_chan pk) (p_seq pk) /\
                nextseq s' = nextseq s /\ ilog s' = ilog s ++ [EvReconv (p_chan pk) (p_seq pk) (p_sender pk) t (p_amt pk)]).
   Proof.
-    unfold refund. destruct (p_denom pk) as [|t|t|]; try discriminate; intros H.
+    unfold refund. destruct (p_denom pk) as [|t|t| |t]; try discriminate; intros H.
     - apply bind_ok in H. destruct H as (s1 & P1 & H1). apply pay_proj in P1.
       destruct P1 as (R&N&L&C&S&PO&HA). rewrite R in H1.
       destruct (in_rel (rel s) _ _) eqn:E; [discriminate|]. inversion H1; subst. left. split; [reflexivity|].
@@ -409,6 +458,13 @@ Section Runs.
         destruct P4 as (R4&N4&L4&_). inversion H4; subst s'. cbn [rel nextseq ilog with_rel with_log] in *.
         right. exists t. split; [apply in_rel_In; exact E|]. repeat split; congruence.
       + inversion H3; subst. left. split; [reflexivity|]. repeat split; assumption.
+    - apply bind_ok in H. destruct H as (s1 & P1 & H1). apply pay_proj in P1.
+      destruct P1 as (R&N&L&C&S&PO&HA). rewrite R in H1.
+      destruct (in_rel (rel s) _ _) eqn:E.
+      + apply bind_ok in H1. destruct H1 as (s2 & P2 & H2). apply convert_coin_proj in P2.
+        destruct P2 as (R2&N2&L2&_). inversion H2; subst s'. cbn [rel nextseq ilog with_rel with_log] in *.
+        right. exists t. split; [apply in_rel_In; exact E|]. repeat split; congruence.
+      + inversion H1; subst. left. split; [reflexivity|]. repeat split; assumption.
   Qed.
 
   Lemma refund_eff pk s s' : refund pk s = Ok s' -> eff s s'.
